@@ -138,3 +138,82 @@ PROPS["C13"] = dict(
         "statistics counters are below 2^63; replies hold < 2^32 blocks and < 2^33 bytes",
     ],
 )
+
+def _rp(test, finding, tier="thorough"):
+    # replays of FIXED findings whose return would also fail a contract obligation run in the thorough tier only;
+    # F1 and F2 sit in code neither verifier reads (closure pipeline / dependency decoder), so their replays run in quick too
+    return dict(set="canister", test=test, finding=finding, tier=tier)
+
+
+PROPS["C02"]["replays"] = [_rp("f8_unfiltered_get_utxos_serves_the_heaviest_tip", "F8")]
+PROPS["C02"]["unverified_links"] = [
+    "state::blockchain_info: the tip fields are read from main_chain.tip() (by inspection); its utxos_length loop and the BlockchainInfo literal are not under contract",
+    "get_utxos / get_balance / get_block_headers / fee percentiles obtain their chain from unstable_blocks::get_main_chain (verified: r == best_path); what they do with it is covered under C04, C05, C07, C15 only as far as those checks go",
+]
+PROPS["C02"]["level_note"] += "; unfiltered get_utxos applies the whole served chain (lemma_unfiltered_walk_serves_the_tip + get_utxos_walk slice)"
+PROPS["C03"]["kani"] = ["canister_leaf", "stable_child"]
+PROPS["C03"]["replays"] = [_rp("f6_depth_rule_compares_with_the_deepest_other_child", "F6")]
+PROPS["C03"]["technique"] = "Verus contracts on the ingestion loop / depth functions + modular Kani check of get_stable_child (callees stubbed by their Verus-proved contracts)"
+PROPS["C03"]["level_note"] = ("get_stable_child is checked by Kani for anchors with <= 3 (thorough: 4) children, each child's subtree ARBITRARY (stubs = Verus-proved "
+                              "contracts of depth / difficulty_based_depth / normalized_stability_threshold, Kani-proved contract of the depth bound): bounded in the number "
+                              "of children only, reported under coverage.bounded and not counted as discharged; peek/pop are assumed to implement that decision; "
+                              "UtxoSet::ingest_block(_continue), BlockHeaderStore::insert_block assumed (stable structures)")
+PROPS["C03"]["unverified_links"] = [
+    "unstable_blocks::pop / peek bodies (Rc<RefCell<dyn BlocksCache>>, boxed iterators), UtxoSet::ingest_block(_continue)",
+    "get_stable_child for anchors with more than 4 children (Kani bound)",
+    "stability threshold raised by set_config while a block is being ingested (pop would return None and the repo's expect traps): stated as precondition wf_ingesting",
+]
+
+PROPS["C07"] = dict(
+    verus_units=["core"],
+    replays=[_rp("f3_header_ranges_are_exact_while_ingestion_is_paused", "F3")],
+    technique="Verus contracts on the range arithmetic + message-boundary invariant wf_headers on every exit of the ingestion loop",
+    level_text="unbounded deductive proof that verify_and_return_effective_range returns the documented errors or (start, min(end or tip, start+99)); that the unstable "
+               "part of a range is exactly the indices [start -. stable, end - stable] of the served branch (none iff end < stable height); and that the header "
+               "store holds exactly the heights below the stable height after EVERY exit of ingest_stable_blocks_into_utxoset, paused ones included, so the two "
+               "parts partition the range (composition lemma)",
+    level_note="BlockHeaderStore over StableBTreeMaps is a stand-in (map view); the stable part's iterator pipeline and the serialisation of headers "
+               "(consensus_encode) are not under contract; linking of consecutive headers follows from path-ness of best_path (C02) and is not separately proved",
+    explanation="R8 slice of get_block_headers_in_range (index arithmetic), whole verify_and_return_effective_range, second extraction of the ingestion loop with wf_headers.",
+    unverified_links=[
+        "get_block_headers_internal: the two with_state closures (range(..).map(..).collect(), consensus_encode) that materialise the headers",
+        "BlockHeaderStore::{insert, get_block_headers_in_range} over StableBTreeMap (assumed map semantics)",
+        "upgrades",
+    ],
+    assumptions=COMMON_ASSUMPTIONS + ["tip height < 2^32 - 2^20"],
+)
+
+PROPS["C04"] = dict(
+    verus_units=["core"],
+    technique="Verus contracts on get_stability_count, the bound check and the prefix-walk slice of get_utxos_from_chain + fork-free corollary lemma",
+    level_text="unbounded deductive proof that get_stability_count is (depth of the block) - (greatest depth of a competing block at the same height), that the walk applies "
+               "exactly the longest prefix of the served chain whose blocks all have stability count >= c and names its last block and height as tip, that a c larger "
+               "than the chain is refused with MinConfirmationsTooLarge{given, max}, and (lemma) that on a fork-free chain of L blocks the cut is after block L-c (tip at H-c+1)",
+    level_note="the rows produced by block_hashes_with_depths_by_heights are an ASSUMED input (uninterpreted rows_spec; nested &mut Vec<Vec<_>> recursion with resize); "
+               "that the applied blocks yield the ledger at the cut is C01's unverified refinement; fewer than 2^31 unstable blocks",
+    explanation="R4 (enumerate => counter) and R8 (statement slice) rewrites are listed per function in the evidence.",
+    unverified_links=[
+        "BlockTree::block_hashes_with_depths_by_heights(_helper): row h = blocks at distance h with the length of their longest descendant chain (assumed)",
+        "AddressUtxoSet::apply_block / into_iter and the page cut (closure pipelines)",
+    ],
+    assumptions=COMMON_ASSUMPTIONS + ["depths < 2^31 (the repo casts them to i32)"],
+)
+
+PROPS["C05"] = dict(
+    verus_units=["core"],
+    kani=["canister_leaf"],
+    replays=[_rp("f5_balance_equals_sum_of_utxos_on_forks", "F5"), _rp("f1_prefix_address_does_not_leak", "F1", "quick")],
+    technique="Verus contracts on both walks (get_utxos prefix walk, get_balance accumulation) against the SAME cut function + bound-check slice",
+    level_text="unbounded deductive proof that get_balance adds the per-block deltas of exactly the first cut_len blocks of the served chain — the same blocks, by the same "
+               "cut function, that the get_utxos walk applies for the same request — with every u64 addition/subtraction discharged under the stated range assumption; "
+               "both refuse a too-large c by comparing with the chain length",
+    level_note="that the stable `balances` map equals the sum over the stable address index, and that per-block deltas equal the UTXO changes, is C01's unverified ledger "
+               "refinement (stable structures + entry-API caches); Address::from_str_checked error mapping and the query wrappers are by inspection only",
+    explanation="get_balance walk verified as an R8 slice with ghost accounting (balance_after); agreement follows because both contracts are stated over cut_len.",
+    unverified_links=[
+        "UtxoSet::get_balance (stable balances map with in-progress block reverted), insert_utxo / remove_inputs keeping balances and index in step",
+        "OutPointsCache getters (assumed to return the block's outpoints and their cached values)",
+        "address parsing and the identical error mapping in both endpoints (two 3-arm matches, not under contract)",
+    ],
+    assumptions=COMMON_ASSUMPTIONS + ["running balances stay within [0, 2^64) (sum of all satoshi <= 21e14; no address spends more than it holds)"],
+)
